@@ -357,13 +357,18 @@ func builtinJSONStringifyWalk(ctx builtinJSONStringifyContext, key string, holde
 			} else {
 				// Go maps are without order, so this doesn't conform to the ECMA ordering
 				// standard, but oh well...
+				// K is the list of own enumerable keys before any of them is serialised.
+				var names []string
 				objHolder.enumerate(false, func(name string) bool {
+					names = append(names, name)
+					return true
+				})
+				for _, name := range names {
 					value, exists := builtinJSONStringifyWalk(ctx, name, objHolder)
 					if exists {
 						obj[name] = value
 					}
-					return true
-				})
+				}
 			}
 			return obj, true
 		}
